@@ -108,6 +108,8 @@ M("C04-R7-cap-bpf-bit", "C04", [(CAPS, "check_cap!(cap_bpf, 39 - 32, permitted, 
 M("C04-R7-cap-word", "C04", [(CAPS, "let permitted = u32::from_le_bytes(caps[12..16].try_into().unwrap());", "let permitted = u32::from_le_bytes(caps[4..8].try_into().unwrap());")], ["capability_"])
 M("C04-V-perm-nonzero", "C04", [(MO, "mode & S_IRUSR == S_IRUSR", "mode & S_IRUSR != 0")], kind="variant")
 
+M("C15-R1-minus-lost-on-field", "C15", [(P, "                    let mut expr = Expr::field(field);\n                    expr.minus = minus;\n                    return Ok(Some(expr));", "                    let expr = Expr::field(field);\n                    return Ok(Some(expr));")], ["unary-minus"])
+M("C15-R1-V-minus-set-once", "C15", [(P, "                    let mut expr = Expr::field(field);\n                    expr.minus = minus;\n                    return Ok(Some(expr));", "                    let mut expr = Expr::field(field);\n                    if minus {\n                        expr.minus = true;\n                    }\n                    return Ok(Some(expr));")], kind="variant")
 # ---------------------------------------------------------------- C05 / C06
 T = "src/util/top_n.rs"
 M("C05-R1-direction-swapped", "C05", [(U, "if self.orderings[i] {\n            comparison\n        } else {\n            comparison.reverse()\n        }", "if self.orderings[i] {\n            comparison.reverse()\n        } else {\n            comparison\n        }")], ["C05-R1_cmp"])
